@@ -35,6 +35,10 @@ type Config struct {
 	// followed by calls on a healthy store: the only deviation events are a caller giving up (C<i>, T<i>) and
 	// the batch answer AA; submissions through the asynchronous API (S<i>a: no deadline at all) are default
 	// events like plain ones; the server never drops a stream, no write fails, nothing is closed.
+	// Part "D" = the first batches to a store whose connection is not ready: the store accepts the dial but the
+	// connection becomes ready only at event R (default event, possible at every point); until then the send loop is
+	// blocked in waitConnReady with the entries of its batch selected but not yet written, later submissions queue
+	// behind it, and callers' time-outs (T<i>), cancellations (C<i>), the dial budget (DB) and Close (X) may happen first.
 	// Part "C" = the request-collapse layer on a scripted store (collapse.go); Grid names its request shapes.
 	Part string `json:"part,omitempty"`
 	Grid string `json:"grid,omitempty"`
@@ -78,8 +82,8 @@ func applyConfig(c Config) {
 // to pending requests (in any order) are default events.
 func eventCost(e string) int {
 	switch {
-	case strings.HasPrefix(e, "A:"):
-		return 0
+	case strings.HasPrefix(e, "A:"), e == "R":
+		return 0 // (R, part D: the connection becomes ready - the default course of the environment, at any point)
 	case strings.HasPrefix(e, "S"):
 		if strings.IndexByte(e, ':') > 0 {
 			return 0 // part C: which request and which API a caller uses is part of the enumeration, not a deviation
@@ -225,6 +229,39 @@ func (w *world) enabled(o *obs, budget int) []string {
 		}
 		return out
 	}
+	if w.cfg.Part == "D" {
+		if w.withheld {
+			out = append(out, "R")
+		}
+		if budget <= 0 {
+			return out
+		}
+		if next >= 0 && w.cfg.Variants {
+			for _, v := range []int{vHigh, vFwd, vAsync} {
+				out = append(out, fmt.Sprintf("S%d%s", next, variantTag[v]))
+			}
+		}
+		for _, s := range o.Streams {
+			if s.Alive && len(pendingBy[s.Idx]) >= 2 {
+				out = append(out, "AA:"+s.Kind)
+			}
+		}
+		for i := range o.Callers {
+			if o.inflight(i) {
+				out = append(out, fmt.Sprintf("C%d", i))
+				if w.callers[i].variant != vAsync {
+					out = append(out, fmt.Sprintf("T%d", i))
+				}
+			}
+		}
+		if w.withheld && w.ctl.pendingWith(dialBudget) > 0 {
+			out = append(out, "DB")
+		}
+		if anyInflight || next >= 0 {
+			out = append(out, "X")
+		}
+		return out
+	}
 	if budget <= 0 || (next < 0 && !anyInflight && len(out) == 0) {
 		return out
 	}
@@ -300,7 +337,37 @@ func (w *world) perform(o *obs, e string) (expect, error) {
 			return fmt.Errorf("server command queue full")
 		}
 	}
+	w.heldBefore = w.withheld && !w.closed
+	if w.withheld && !w.closed && e != "R" && e[0] != 'S' {
+		for i := range o.Callers { // (coverage) an event hits calls that are in flight but not written: selected into the blocked batch or queued behind it
+			if o.inflight(i) && findReq(w.callers[i].payload()) == nil {
+				w.heldAtStep++
+			}
+		}
+	}
 	switch {
+	case e == "R":
+		if !w.withheld || w.closed {
+			return ex, errNotEnabled
+		}
+		w.withheld = false
+		close(w.readyCh)
+		ex.reason = "the connection became ready: that completes nobody (the requests are written now)"
+	case e == "DB":
+		if !w.withheld || w.closed || w.ctl.pendingWith(dialBudget) == 0 {
+			return ex, errNotEnabled
+		}
+		// The connection did not become ready within the dial budget: a connection failure, which may end any call
+		// that is in flight and not yet written (the property does not say which of them are in the batch that gives up).
+		for i := range o.Callers {
+			if o.inflight(i) && findReq(w.callers[i].payload()) == nil {
+				ex.may[i] = "failure"
+			}
+		}
+		w.dialExpired = true
+		ex.reason = "the connection did not become ready within the dial budget"
+		dialFires++
+		w.ctl.fireByDuration(dialBudget)
 	case e == "NS":
 		if w.closed || atomic.LoadInt32(&w.failNextSend) != 0 {
 			return ex, errNotEnabled
@@ -464,6 +531,10 @@ func (w *world) perform(o *obs, e string) (expect, error) {
 			}
 		}
 		ex.reason = "the connection pool was closed: no call may stay blocked"
+		if w.heldBefore {
+			ex.shape = "/while-connection-not-ready" // (part D) calls selected into the batch that waits for the connection / queued behind it
+			w.raceSite = true
+		}
 		cli := w.cli
 		atomic.AddInt32(&w.closeCalls, 1)
 		if e == "X" {
@@ -532,7 +603,7 @@ func eventKind(e string) string {
 		}
 		return e[:i]
 	}
-	if e == "X" || e == "XA" || e == "final-close" || e == "NS" {
+	if e == "X" || e == "XA" || e == "final-close" || e == "NS" || e == "R" || e == "DB" {
 		return e
 	}
 	k := e[:1]
@@ -557,7 +628,16 @@ func (w *world) check(before, after *obs, e string, ex expect) []viol {
 			tag = "async"
 		}
 		if a.Panicked != "" && b.Panicked == "" {
-			add("panic/caller/"+tag, fmt.Sprintf("caller %d panicked after event %s: %s", i, e, a.Panicked))
+			// The class of the case: which event, and how far the call's request had got (the server's table says whether
+			// it was written; before that it is queued in the client or selected into a batch that waits for its stream).
+			where := "/request-written-to-the-stream"
+			if !hasReq(after, c.payload()) {
+				where = "/request-not-yet-written"
+				if w.cfg.Part == "D" && w.heldBefore {
+					where += ":connection-not-ready"
+				}
+			}
+			add("panic/caller/"+tag+"/after-"+kind+where, fmt.Sprintf("caller %d panicked in its own goroutine after event %s instead of returning (%s): %s", i, e, ex.reason, a.Panicked))
 			continue
 		}
 		if a.Returns > 1 && a.Returns > b.Returns {
@@ -633,7 +713,7 @@ func (w *world) check(before, after *obs, e string, ex expect) []viol {
 		case "closed":
 			okCause = w.closed || w.addrClosed > 0
 		case "failure":
-			okCause = w.dropped || w.closed || w.addrClosed > 0 || w.sendFailArmed
+			okCause = w.dropped || w.closed || w.addrClosed > 0 || w.sendFailArmed || w.dialExpired
 		}
 		if !okCause {
 			add("uncaused-error/"+tag+"/"+cls+"/after-"+kind, fmt.Sprintf("caller %d returned %s but no such event happened to it", i, desc))
@@ -715,8 +795,8 @@ func modelAvailable(limit int64, out int) int64 {
 }
 
 func (w *world) healthyStore() bool {
-	if w.closed || atomic.LoadInt32(&w.failNextSend) != 0 || w.knownLeak {
-		return false
+	if w.closed || atomic.LoadInt32(&w.failNextSend) != 0 || w.knownLeak || w.withheld {
+		return false // (withheld, part D: the environment withholds the connection itself)
 	}
 	for _, c := range w.callers {
 		if c.tainted {
@@ -932,6 +1012,8 @@ type trace struct {
 	AcctChecks      int
 	SendChecks      int
 	PartC           map[string]int // part C: counters / per-execution facts (0 or 1) for the coverage report
+	RaceSite        bool           // part D: Close happened while calls waited behind the batch that waits for the connection (see raceDependent)
+	HeldHits        int            // part D: (event, call) pairs: a deviation event happened while the call was in flight, not written, connection not ready
 }
 
 var stateDump map[string]struct{} // diagnostics (VERIF_C18_DUMPSTATES)
@@ -952,6 +1034,15 @@ func stateHash(w *world, o *obs) uint64 {
 		fmt.Fprintf(&sb, "s%s:%v;", s.Kind, s.Alive)
 	}
 	fmt.Fprintf(&sb, "x%v:%d:%d", w.closed, w.addrClosed, atomic.LoadInt32(&w.failNextSend))
+	if w.cfg.Part == "D" {
+		// implementation state the observation lacks: is the connection still withheld, is a batch waiting in
+		// waitConnReady (its dial budget is armed), did a budget elapse, and which calls have already given up while
+		// their request was not written (their entries still travel with the blocked batch / the queue)
+		fmt.Fprintf(&sb, "|d%v:%d:%v", w.withheld, w.ctl.pendingWith(dialBudget), w.dialExpired)
+		for i, c := range w.callers {
+			fmt.Fprintf(&sb, ":%d%v%v", i, c.timedOut, c.cancelled)
+		}
+	}
 	h := fnv.New64a()
 	h.Write([]byte(sb.String()))
 	if stateDump != nil {
@@ -995,6 +1086,8 @@ func runOne(cfg Config, prefix []string, stopAtPrefix bool) *trace {
 			}
 		}()
 		t.AcctChecks, t.SendChecks = w.acctChecks, w.sendChecks
+		t.HeldHits = w.heldAtStep
+		t.RaceSite = w.raceSite
 		t.w = nil
 		if !w.teardown() {
 			if t.Inconclusive == "" && len(t.Viol) == 0 {
@@ -1280,6 +1373,7 @@ type subtreeResult struct {
 	AcctChecks     int                 `json:"acct_checks"`
 	SendChecks     int                 `json:"send_checks"`
 	PartC          map[string]int      `json:"part_c,omitempty"`
+	PartD          map[string]int      `json:"part_d,omitempty"`
 
 	WallMs    int64    `json:"wall_ms"`
 	SlowestMs int64    `json:"slowest_ms"`
@@ -1314,6 +1408,27 @@ func (r *subtreeResult) account(cfg Config, t *trace, states map[uint64]struct{}
 		r.PartC["events"] += len(t.Events)
 		for k, v := range t.PartC {
 			r.PartC[k] += v
+		}
+	}
+	if cfg.Part == "D" {
+		if r.PartD == nil {
+			r.PartD = map[string]int{}
+		}
+		r.PartD["executions"]++
+		r.PartD["events"] += len(t.Events)
+		r.PartD["deviation_events_x_calls_in_flight_not_written_while_connection_not_ready"] += t.HeldHits
+		if t.HeldHits > 0 {
+			r.PartD["executions_with_such_an_event"]++
+		}
+		seen := map[string]bool{}
+		for k, e := range t.Events {
+			if e == "R" {
+				break
+			}
+			if ek := eventKind(e); !seen[ek] && k > 0 && e[0] != 'S' {
+				seen[ek] = true
+				r.PartD["executions_with_"+ek+"_before_ready"]++
+			}
 		}
 	}
 	if t.LateAnswers > 0 {
@@ -1387,7 +1502,11 @@ func (r *subtreeResult) account(cfg Config, t *trace, states map[uint64]struct{}
 		r.EventKinds["drain:"+eventKind(e)]++
 	}
 	r.ByF[strconv.Itoa(f)]++
-	if f > 0 || t.MaxInflight >= 2 {
+	if cfg.Part == "D" {
+		if t.HeldHits > 0 { // part D: a deviation event hit a call whose request was not yet written while the connection was not ready
+			r.NonTrivial++
+		}
+	} else if f > 0 || t.MaxInflight >= 2 {
 		r.NonTrivial++
 	}
 	if len(t.Events) > r.MaxDepth {
@@ -1431,6 +1550,18 @@ func runChecked(cfg Config, prefix []string, stop bool) *trace {
 		// the machine (or this process) was stalled: let it recover before the next attempt
 		time.Sleep(time.Duration(try+1) * 200 * time.Millisecond)
 	}
+	if t.Inconclusive == "" && len(t.Viol) == 0 && t.RaceSite && !stop {
+		// (see raceDependent) the execution contains a point whose course is decided by select's pseudo-random choice
+		// inside the client: both courses belong to the enumeration, so the execution is repeated (bounded) until the
+		// other course was seen or 10 repetitions agree.
+		for i := 0; i < 10 && !poisoned; i++ {
+			raceRepeats++
+			if r := runOne(cfg, prefix, stop); r.Inconclusive == "" && len(r.Viol) > 0 {
+				t = r
+				break
+			}
+		}
+	}
 	if t.Inconclusive != "" || len(t.Viol) == 0 {
 		return t
 	}
@@ -1446,6 +1577,28 @@ func runChecked(cfg Config, prefix []string, stop bool) *trace {
 		pre, stopAt := t.Events, false
 		if v.At > 0 && v.At <= len(t.Events) {
 			pre, stopAt = t.Events[:v.At], true
+		}
+		if raceDependent(v.Key) {
+			// The class depends on a choice the harness does not own (Go's pseudo-random select between two ready
+			// cases inside the client, see raceDependent): an execution of the same prefix may legitimately not show
+			// it. It is believed when one of up to 12 re-executions, each auditing every quiescence with a full stack
+			// snapshot, violates the same rule (an audited observation of a blocked call is reliable on its own).
+			found := false
+			for i := 0; i < 12 && !found && !poisoned; i++ {
+				for _, rv := range runOne(cfg, pre, stopAt).Viol {
+					if rv.Key == v.Key {
+						found = true
+					}
+				}
+			}
+			if !found {
+				unconfirmed++
+				t.Viol = nil
+				t.Inconclusive = "violation not reproduced on re-execution: " + v.Key
+				return t
+			}
+			confirmedKeys[v.Key]++
+			continue
 		}
 		for i := 0; i < 3; i++ {
 			var r *trace
@@ -1473,6 +1626,14 @@ func runChecked(cfg Config, prefix []string, stop bool) *trace {
 	return t
 }
 
+// raceDependent: part D, Close while calls wait behind the batch that waits for the connection. Whether the send
+// loop, once released, takes the next queued entry or notices `closed` first is decided by select's pseudo-random
+// choice in fetchAllPendingRequests (both cases are ready).
+func raceDependent(key string) bool {
+	return strings.HasPrefix(key, "stuck/") && strings.HasSuffix(key, "/while-connection-not-ready")
+}
+
+var raceRepeats int64
 var unconfirmed int64
 var confirmedKeys = map[string]int{}
 var execCount int64
